@@ -95,6 +95,8 @@ void              _dbus_connection_remove_pending_call         (DBusConnection  
 void              _dbus_connection_block_pending_call          (DBusPendingCall    *pending);
 void              _dbus_pending_call_complete_and_unlock       (DBusPendingCall    *pending,
                                                                 DBusMessage        *message);
+DBUS_PRIVATE_EXPORT
+dbus_uint32_t     _dbus_connection_get_next_client_serial      (DBusConnection     *connection);
 dbus_bool_t       _dbus_connection_send_and_unlock             (DBusConnection     *connection,
                                                                 DBusMessage        *message,
                                                                 dbus_uint32_t      *client_serial);
